@@ -184,9 +184,27 @@ Qed.
 Lemma take_nth_len k l j rest : take_nth k l = Some (j, rest) -> length l = S (length rest).
 Proof. intro H. exact (proj2 (take_nth_cnt (fun _ => true) _ _ _ _ H)). Qed.
 
+Ltac tidy := repeat match goal with
+  | H : false = true -> _ |- _ => clear H
+  | H : true = false -> _ |- _ => clear H
+  | H : true = true -> _ |- _ => specialize (H eq_refl)
+  | H : false = false -> _ |- _ => specialize (H eq_refl)
+  | H : false = true \/ false = true -> _ |- _ => clear H
+  | H : _ /\ _ |- _ => destruct H
+  | H : ?x = ?x |- _ => clear H
+  | H : false = true |- _ => discriminate H
+  | H : true = false |- _ => discriminate H
+  | H : _ = mkCaller _ _ _ _ _ _ _ _ |- _ => clear H
+  | |- true = true -> _ => intros _
+  | |- false = false -> _ => intros _
+  | |- false = true -> _ => let X := fresh in intro X; discriminate X
+  | |- true = false -> _ => let X := fresh in intro X; discriminate X
+  end.
+
 Ltac fin := first
   [ assumption
-  | solve [simpl in *; rewrite ?app_length in *; simpl in *; lia]
+  | solve [simpl in *; rewrite ?app_length in *; simpl in *; tidy;
+           first [assumption | reflexivity | solve [auto 3] | lia]]
   | apply Forall_filter_caller
   | solve [eapply Forall_inv_tail; eassumption]
   | solve [constructor] ].
